@@ -203,6 +203,8 @@ def run(check, an: Analysis):
             raise AnalysisError('too many paths in %s' % construct)
         if callee.fn.kind == 'asyncgen':
             seg = failing_segment(summ.paths)
+            if seg is not None:
+                seg = failing_segment(an.paths(callee, which))
             n_seg = sum(1 for path in summ.paths for e in path.events
                         if e.kind == 'yield' and e.depth == 0)
             if n_seg == 0:
@@ -228,6 +230,11 @@ def run(check, an: Analysis):
             check.note('%s never returns normally (vacuous)' % construct)
             continue
         bad = failing_normal_path(summ.paths)
+        if bad is not None:
+            # decided again with the private helpers of the object run in place: what a
+            # helper established (the condition holds / does not hold) then reaches the
+            # tests that follow it
+            bad = failing_normal_path(an.paths(callee, which))
         if bad is None:
             check.instance('Y', construct, True, where,
                            'all %d normal-exit paths (of %d paths) contain a MUST suspension'
